@@ -1,6 +1,20 @@
 (** Proofs for C14: mutual exclusion of the bodies of [lock_tty]-synchronized functions
-    across threads and processes, for any number of threads/processes and any schedule,
-    by induction on reachability ([lib/Sched.v]) over the model [model/Locks.v]. *)
+    across threads and processes, re-entrancy, and "every caller gets its own reply", for
+    any number of threads / processes and any schedule, by induction on reachability
+    ([lib/Sched.v]) over the model [model/Locks.v].
+
+    1. lock accounting (I3): each lock has one owner, who holds it [count] times, where
+       "holds" is read off the thread's program counter and frames;
+    2. the thread-local transition [next]: what a step does to the holdings, and to what
+       the thread knows about the global of its process ([local_ok]; I1, I2);
+    3. the global invariant [Inv] and its preservation by every step;
+    4. [mutex_lemma]; 5. [reentrant_lemma], [owner_proceeds_lemma];
+    6. [Qinv], [queries_lemma] (FIFO terminal);
+    7. every trace of the model is accepted by the judge of [model/LocksSpec.v]
+       ([trace_accepted_lemma]);
+    8. the coarser grain replayed by the harness is covered ([run_macro_reachable]);
+    9. [second_acquire_needed_refuted_lemma] (the single-[with] variant races);
+    10. non-vacuity examples. *)
 From Coq Require Import List Arith Bool Lia.
 Import ListNotations.
 From TI Require Import lib.Sched model.Locks model.LocksSpec.
